@@ -77,6 +77,49 @@ func (p c10) arrays(c *core.Ctx) {
 	c.Nontrivial("arrays|" + g.Sc.GraphSig() + tag + fmt.Sprint(size))
 }
 
+// lazyWrappedCycle: a cycle of two lazy components, one of which a post-processor proxies for its early
+// reference, reached only through an eager holder's by-type slice: which member the cycle is entered
+// through follows the registry's enumeration order - the outcome of the start does not.
+func (p c10) lazyWrappedCycle(c *core.Ctx) {
+	g := world.NewG(c.Rng)
+	l1 := g.AddNode([]int{8, 11}[c.Rng.Intn(2)], g.FreshName(0)) // lazy IAs
+	l2 := g.AddNode([]int{8, 11}[c.Rng.Intn(2)], g.FreshName(1))
+	if g.EdgeByName(l1, l2, "", "iface") == "" || g.EdgeByName(l2, l1, "", "iface") == "" {
+		return
+	}
+	h := g.AddNode([]int{2, 13}[c.Rng.Intn(2)], g.FreshName(2)) // eager IB
+	g.SetTag(h, "SA0", "wire", "")
+	for x, nx := 0, c.Rng.Intn(3); x < nx; x++ {
+		g.AddNode([]int{2, 13, 5}[c.Rng.Intn(3)], g.FreshName(3+x)) // no further IAs
+	}
+	plan := map[string]world.SubPlan{g.Sc.Nodes[l1].DisplayName(): {Early: true}}
+	if c.Rng.Intn(3) == 0 {
+		plan[g.Sc.Nodes[l2].DisplayName()] = world.SubPlan{Early: true}
+	}
+	var sigs []string
+	for o := 0; o < 10; o++ {
+		g.ShuffleOrders()
+		if o%2 == 0 {
+			g.Sc.Order.DefMode, g.Sc.Order.PermK = "perm", o/2
+		}
+		r := world.Start(g.Sc, world.Options{Extra: []any{world.NewSubstituter(plan)}})
+		c.Count("starts", 1)
+		if abnormal(r.Outcome()) {
+			c.Fail("", "lazy cycle with an early-proxied member behind a by-type slice: "+core.Short(r.OutcomeDetail(), 300), failDetail(g.Sc, r, map[string]any{"plan": plan}))
+			return
+		}
+		sigs = append(sigs, r.Outcome())
+	}
+	for i := 1; i < len(sigs); i++ {
+		if sigs[i] != sigs[0] {
+			c.Fail("", fmt.Sprintf("same scenario, different orders: a lazy cycle with an early-proxied member, reached through a by-type slice: run 0 -> %s, run %d -> %s", sigs[0], i, sigs[i]), failDetail(g.Sc, nil, map[string]any{"outcomes": sigs, "plan": plan}))
+			return
+		}
+	}
+	c.Count("family_lazy_wrapped_cycle", 1)
+	c.Nontrivial("lazywrapped|" + g.Sc.GraphSig() + fmt.Sprint(plan))
+}
+
 // tiedUnnamed: a single-valued point whose best-ranked candidates are several un-named components (a genuine
 // tie) next to named ones and no Primary: whatever the order, it receives one of the tied ones - never a
 // lower-ranked named candidate.
@@ -129,6 +172,10 @@ func (p c10) Run(c *core.Ctx) {
 	}
 	if c.Index%25 == 21 {
 		p.tiedUnnamed(c)
+		return
+	}
+	if c.Index%25 == 6 {
+		p.lazyWrappedCycle(c)
 		return
 	}
 	orders := tierN(c.Tier, 12, 24)
